@@ -228,6 +228,24 @@ def cases():
                 yield dict(name=f"func-dup-param-types-{k}", d=d, u=d, expect=False, src=render({d: [f"func h({ps}) {{", "}"]}))
             yield dict(name="func-distinct-params", d=d, u=d, expect=True, src=render({d: ["func h(a int, b string, c []int, e bool) {", "}"]}))
             yield dict(name="func-falls-off-end", d=d, u=d, expect=False, src=render({d: ["func h(a int) int {", "\tif a > 1 {", "\t\treturn 1", "\t}", "}"]}))
+            # a body that ENDS in a branching statement of which some path does not return (round 16: C07-I, "a function may end in an
+            # if-else / a switch with default whose branches all return" - checked for the if and the else body only, so an else-if
+            # body, or a case behind the first one, that does not return falls off the end)
+            for k, body in enumerate((
+                    ["if a > 1 {", "\treturn 1", "} else if a > 0 {", "\tprint(a)", "} else {", "\treturn 3", "}"],
+                    ["if a > 1 {", "\treturn 1", "} else if a > 0 {", "\treturn 2", "} else if a > -5 {", "\ta = a + 1", "} else {", "\treturn 3", "}"],
+                    ["if a > 1 {", "\treturn 1", "} else if a > 0 {", "\treturn 2", "}"],
+                    ["if a > 1 {", "\treturn 1", "} else {", "\tprint(a)", "}"],
+                    ["if a > 1 {", "\tprint(a)", "} else {", "\treturn 2", "}"],
+                    ["switch a {", "case 1:", "\treturn 1", "case 2:", "\tprint(a)", "default:", "\treturn 3", "}"],
+                    ["switch {", "case a > 1:", "\treturn 1", "case a > 0:", "\treturn 2", "case a > -5:", "\tprint(a)", "default:", "\treturn 3", "}"],
+                    ["switch a {", "case 1:", "\treturn 1", "case 2:", "\treturn 2", "}"],
+                    ["switch a {", "case 1:", "\treturn 1", "default:", "\tprint(a)", "}"],
+                    ["for a > 0 {", "\treturn 1", "}"],
+                    ["if a > 1 {", "\tif a > 2 {", "\t\treturn 1", "\t} else {", "\t\treturn 2", "\t}", "} else if a > 0 {", "\tprint(a)", "} else {", "\treturn 3", "}"],
+                    ["if a > 1 {", "\treturn 1", "} else {", "\tif a > 0 {", "\t\treturn 2", "\t} else if a > -5 {", "\t\tprint(a)", "\t} else {", "\t\treturn 3", "\t}", "}"])):
+                yield dict(name=f"func-falls-off-branch-{k}", d=d, u=d, expect=False,
+                           src=render({d: ["func h(a int) int {"] + ["\t" + l for l in body] + ["}", "print(h(0))"]}))
             yield dict(name="func-empty-body-with-result", d=d, u=d, expect=False, src=render({d: ["func h() int {", "}"]}))
             yield dict(name="func-comment-body-with-result", d=d, u=d, expect=False, src=render({d: ["func h() int {", "\t// nothing", "}"]}))
             yield dict(name="func-only-print-with-result", d=d, u=d, expect=False, src=render({d: ["func h() int {", "\tprint(1)", "}"]}))
